@@ -22,10 +22,32 @@
 (***************************************************************************)
 EXTENDS Integers, Sequences, FiniteSets
 
-CONSTANTS N, Kind, SigAfterDecode
+CONSTANTS
+    \* @type: Int;
+    N,
+    \* @type: Str;
+    Kind,
+    \* @type: Bool;
+    SigAfterDecode
 ASSUME Kind \in {"encode", "plot"}
 
-VARIABLES avail, closed, decoded, sig, signalled, pc, written, held
+VARIABLES
+    \* @type: Int;
+    avail,
+    \* @type: Bool;
+    closed,
+    \* @type: Int;
+    decoded,
+    \* @type: Bool;
+    sig,
+    \* @type: Bool;
+    signalled,
+    \* @type: Str;
+    pc,
+    \* @type: Int;
+    written,
+    \* @type: Bool;
+    held
 vars == <<avail, closed, decoded, sig, signalled, pc, written, held>>
 
 Init == /\ avail = 0 /\ closed = FALSE /\ decoded = 0 /\ sig = FALSE /\ signalled = FALSE
@@ -67,6 +89,21 @@ DoneWritesAll == pc = "done" => written = decoded /\ ~held
 \* ... which is the whole input unless it was interrupted
 WholeUnlessInterrupted == (pc = "done" /\ ~signalled) => written = N
 Terminates == <>(pc = "done")
+
+(*------------- for every input length (Apalache, N an unconstrained natural number) -------------*)
+ConstInit == N \in Nat /\ Kind \in {"encode", "plot"} /\ SigAfterDecode = FALSE
+IndInv == /\ avail >= 0 /\ avail <= N /\ decoded >= 0 /\ decoded <= avail /\ written >= 0
+          /\ pc \in {"select", "decoding", "handle", "final", "done"}
+          /\ (held <=> pc = "handle")
+          /\ (closed => avail = N)
+          /\ (sig => signalled)
+          /\ (Kind = "encode" => pc # "final" /\ written = decoded - (IF held THEN 1 ELSE 0))
+          /\ (Kind = "plot" => written = (IF pc = "done" THEN decoded ELSE 0))
+          /\ ((pc \in {"final", "done"} /\ ~signalled) => (decoded = N /\ closed))
+IndInit == /\ avail \in Int /\ closed \in BOOLEAN /\ decoded \in Int /\ sig \in BOOLEAN /\ signalled \in BOOLEAN
+           /\ pc \in {"select", "decoding", "handle", "final", "done"} /\ written \in Int /\ held \in BOOLEAN
+           /\ IndInv
+Goal == NoLoss /\ DoneWritesAll /\ WholeUnlessInterrupted
 
 \* the contract on its own, for the trace specification: the output holds the first k records of an input of n, in order
 ContractOK(ids, n, wasSignalled) ==
